@@ -1,4 +1,4 @@
-import Wx.Glob.Throttle
+import Wx.Glob.ThrottleRun
 /-! Driver for the action-worker model: arrivals with their filter verdicts, zero-latency scheduling
     (every enabled step is taken at the instant it becomes enabled) → batches, error count, filter calls.
     Every loop iteration goes through `Sp.Th.turn`, the function the C01/C02 theorems are about. -/
@@ -15,6 +15,7 @@ structure Acc where
   batches : List (List Ev × Nat) := []
   errs : Nat := 0
   filtered : List Ev := []
+  turns : List Turn := []        -- every turn taken, in order: the input of the PROVED `Sp.Th.worker`
 
 def mkTurn (thr1 top : Nat) (r : Recv) (t thr2 : Nat) : Turn :=
   { throttle1 := thr1, clock1 := top, recv := r, closedAfter := false, clock2 := t, clock3 := t, throttle2 := thr2 }
@@ -38,8 +39,9 @@ def sim (thr : Nat → Nat) : Nat → List Arr → TS → Acc → Acc
     let timeoutTurn : Unit → Acc := fun _ =>
       -- the timeout elapses (or the window is already over at the top); the next iteration re-reads the throttle
       let fire := if deadline < top then top else deadline
-      let st1 := turn s (mkTurn (thr top) top .timeout fire (thr fire))
-      let a1 := { a with now := fire }
+      let tn := mkTurn (thr top) top .timeout fire (thr fire)
+      let st1 := turn s tn
+      let a1 := { a with now := fire, turns := a.turns ++ [tn] }
       match st1.next with
       | some s1 => sim thr fuel arrs s1 a1
       | none => finishBatch st1 a1 arrs
@@ -49,8 +51,9 @@ def sim (thr : Nat → Nat) : Nat → List Arr → TS → Acc → Acc
       let t := if x.at_ < a.now then a.now else x.at_
       if !s.set.isEmpty && deadline ≤ t then timeoutTurn ()
       else
-        let st := turn s (mkTurn (thr top) top (.got x.ev) t (thr t))
-        let a := { a with now := t, errs := a.errs + st.errs.length, filtered := a.filtered ++ st.filtered }
+        let tn := mkTurn (thr top) top (.got x.ev) t (thr t)
+        let st := turn s tn
+        let a := { a with now := t, errs := a.errs + st.errs.length, filtered := a.filtered ++ st.filtered, turns := a.turns ++ [tn] }
         match st.next with
         | some s' => sim thr fuel rest s' a
         | none => finishBatch st a rest
@@ -72,8 +75,13 @@ def handleLine (line : String) : String :=
     let as := ((items.filter (fun s => match s.splitOn ":" with | [_, "T", _] => false | _ => true)).zipIdx).map (fun (s, i) => parseArr i s)
     let nm (e : Ev) : String := (as[e.id]?.map (·.name)).getD "?"
     let r := sim (thrAt thr.toNat! changes) (6 * as.length + 4 * changes.length + 8) as {} {}
-    id ++ " batches=" ++ ",".intercalate (r.batches.map (fun (b, _) => "+".intercalate (b.map nm)))
-      ++ " errs=" ++ toString r.errs ++ " filtered=" ++ "+".intercalate (r.filtered.map nm)
+    -- what is printed is the run of the PROVED worker loop over the turns the scheduler produced; the scheduler's own
+    -- bookkeeping must agree with it (it calls the same `turn`), otherwise the line says so and cannot match the implementation
+    let w := worker (r.turns.length + 1) r.turns
+    let wb := w.batches.map (·.1)
+    if wb != r.batches.map (·.1) || w.errs.length != r.errs || w.filtered != r.filtered then id ++ " MODEL-MISMATCH scheduler vs Sp.Th.worker" else
+    id ++ " batches=" ++ ",".intercalate (wb.map (fun b => "+".intercalate (b.map nm)))
+      ++ " errs=" ++ toString w.errs.length ++ " filtered=" ++ "+".intercalate (w.filtered.map nm)
   | _ => "bad-line"
 
 end Wx.Driver.Throttle
